@@ -401,6 +401,8 @@ def mech_signature(exc, proto):
     aio = [f for f in frames if "/aioquic/" in f.f_code.co_filename.replace("\\", "/")]
     prefix = "qlog:" if any(f.f_code.co_filename.endswith("logger.py") for f in aio) else ""
     sig = exc_signature(exc, prefix)
+    if prefix:
+        return sig  # the logger's function name is the mechanism, whatever frame was being logged
     ctxname = None
     for f in reversed(aio):
         ft = f.f_locals.get("frame_type")
@@ -690,6 +692,9 @@ def _on_alarm(signum, frame):
 
 
 def run_batch(batch):
+    import time
+
+    cpu0 = time.process_time()
     res = Result()
     proto, role, logger, prefix = batch["proto"], batch["role"], bool(batch["logger"]), batch["prefix"]
     wt = bool(batch.get("wt"))
@@ -772,4 +777,5 @@ def run_batch(batch):
         res.count("prefix_not_established", bad_prefix)
         if not any(":in-valid-prefix" in v["signature"] for v in res.violations):
             res.inconclusive.append("prefix %s/%s/%s did not establish the intended state in %d cases" % (proto, role, prefix, bad_prefix))
+    res.counters["cpu_s"] = round(time.process_time() - cpu0, 3)
     return res.as_dict()
